@@ -154,7 +154,7 @@ LAMBDA_SIGNATURE_PARTS = [
 ]
 
 
-def gen_type(rng: random.Random, depth: int, comparable=False, annots=True, field_ok=True, lambdas=True) -> dict:
+def gen_type(rng: random.Random, depth: int, comparable=False, annots=True, field_ok=True, lambdas=True, tickets=False) -> dict:
     def scalar():
         name = rng.choice(COMPARABLE if comparable else SCALARS)
         if name == 'contract':
@@ -164,9 +164,10 @@ def gen_type(rng: random.Random, depth: int, comparable=False, annots=True, fiel
     if depth <= 0 or rng.random() < 0.25:
         t = scalar()
     else:
-        kinds = ['pair', 'pair', 'pair', 'option', 'or'] + ([] if comparable else ['list', 'set', 'map', 'list', 'map'] + (['lambda'] if lambdas else []))
+        kinds = ['pair', 'pair', 'pair', 'option', 'or'] + ([] if comparable else ['list', 'set', 'map', 'list', 'map'] + (['lambda'] if lambdas else [])
+                                                             + (['ticket'] if tickets else []))
         k = rng.choice(kinds)
-        sub = lambda **kw: gen_type(rng, depth - 1, comparable=comparable, annots=annots, lambdas=lambdas, **kw)  # noqa: E731
+        sub = lambda **kw: gen_type(rng, depth - 1, comparable=comparable, annots=annots, lambdas=lambdas, tickets=tickets, **kw)  # noqa: E731
         if k == 'pair':
             n = rng.choice([2, 2, 3, 3, 4, 4, 5, 6, 7, 8])
             items = [sub() for _ in range(n)]
@@ -179,6 +180,8 @@ def gen_type(rng: random.Random, depth: int, comparable=False, annots=True, fiel
                     t = {'prim': 'pair', 'args': [items[i], t]}
                     if i > 0 and annots:
                         t = _annot(rng, t)
+        elif k == 'ticket':
+            t = {'prim': 'ticket', 'args': [gen_type(rng, min(depth - 1, 2), comparable=True, annots=False, field_ok=False)]}
         elif k == 'option':
             t = {'prim': 'option', 'args': [sub(field_ok=False)]}
         elif k == 'or':
@@ -407,6 +410,10 @@ def gen_value(rng: random.Random, n: tuple, sha: ShaTable, size: int = 4, domain
             v = gen_value(rng, n[1], sha, 2, domain_lambdas)
             items[sort_key(v)] = (v, gen_value(rng, n[2], sha, max(size - 1, 1), domain_lambdas))
         return ('map', [items[k] for k in sorted(items)])
+    if p == 'ticket':
+        ep = rng.choice([None, None, None, 'a', 'mint'])
+        return ('ticket', rng.choice(['KT1', 'KT1', 'tz1', 'sr1']), gen_hash20(rng), None if ep is None else ep.encode(),
+                gen_value(rng, n[1], sha, 2, domain_lambdas), rng.choice([0, 1, 2, 63, 64, 2 ** 64, rng.getrandbits(40) + 1]))
     if p == 'lambda':
         pool = LAMBDAS_PLAIN + (lambdas_with_domain_push(rng, sha) if domain_lambdas and rng.random() < 0.4 else [])
         return ('lambda', rng.choice(pool))
@@ -425,6 +432,8 @@ def value_size(v: tuple) -> int:
         return 1 + sum(value_size(x) for x in v[1])
     if k == 'map':
         return 1 + sum(value_size(a) + value_size(b) for a, b in v[1])
+    if k == 'ticket':
+        return 3 + value_size(v[4])
     return 1
 
 
@@ -500,6 +509,9 @@ def readable_json(v: tuple, sha: ShaTable | None, rng: random.Random | None = No
         return [{'prim': 'Elt', 'args': [readable_json(a, sha, rng), readable_json(b, sha, rng)]} for a, b in v[1]]
     if k == 'lambda':
         return v[1]
+    if k == 'ticket':
+        return {'prim': 'Pair', 'args': [{'string': addr_text(('addr', v[1], v[2], v[3]), sha)},
+                                         {'prim': 'Pair', 'args': [readable_json(v[4], sha, rng), {'int': str(v[5])}]}]}
     raise lib.InternalError(k)
 
 
@@ -545,6 +557,8 @@ def coq_val(v: tuple) -> str:
         return f'(VMap {clist("(" + coq_val(a) + ", " + coq_val(b) + ")" for a, b in v[1])})'
     if k == 'lambda':
         return f'(VLambda {cnode(v[1])})'
+    if k == 'ticket':
+        return f'(VTicket {coq_addr(v[1], v[2])} {copt(None if v[3] is None else chex(v[3]))} {coq_val(v[4])} {cZ(v[5])})'
     raise lib.InternalError(k)
 
 
@@ -557,6 +571,12 @@ def ast_of_obj(o: Any) -> tuple:
     from pytezos.michelson import types as T
     from pytezos.michelson.types.bls import BLS12_381_FrType
 
+    if isinstance(o, T.TicketType):
+        addr, sep, ep = o.ticketer.partition('%')
+        r = b58_parse(addr, ADDR_KINDS)
+        if r is None:
+            return ('opaque', 'ticket', o.ticketer)
+        return ('ticket', r[0], r[1], ep.encode('utf-8') if sep else None, ast_of_obj(o.item), int(o.amount))
     if isinstance(o, T.PairType):
         return ('pair', ast_of_obj(o.items[0]), ast_of_obj(o.items[1]))
     if isinstance(o, T.OptionType):
@@ -639,6 +659,16 @@ def lam_positions(n: tuple, m: Any):
         if args is not None and len(args) >= 2:
             yield from lam_positions(n[1], args[0])
             yield from lam_positions(n[2], args[1] if len(args) == 2 else args[1:])
+    elif p == 'ticket':
+        def pargs(x):
+            return x if isinstance(x, list) else (x.get('args', []) if isinstance(x, dict) and x.get('prim') == 'Pair' else None)
+        args = pargs(m)
+        if args is not None and len(args) == 3:
+            yield from lam_positions(n[1], args[1])
+        elif args is not None and len(args) == 2:
+            inner = pargs(args[1])
+            if inner is not None and len(inner) == 2:
+                yield from lam_positions(n[1], inner[0])
     elif p in ('list', 'set'):
         if isinstance(m, list):
             for x in m:
